@@ -25,7 +25,7 @@ Which hypothesis each theorem rests on, and where it is discharged:
   `lift_x` filtered to that carrier.  The `_ec` / `_secp256k1` forms transfer the conclusions to `Btc.EC.ops C`;
   the `_raw` forms have NO `opsSub` left in the statement and need the explicit cofactor-one hypothesis `hcof`
   (restricted and unrestricted `lift_x` agree); for secp256k1 the discriminant condition and the primality of
-  `p`, `n` are proved, `Secp256k1CofactorOne` is the one named assumption that remains.
+  `p`, `n` are proved, `SecpCofactorOne` is the one named assumption that remains.
 * The output key is committed to as an INTEGER: `check_output_pubkey` compares `int.from_bytes(q)`, so `00 ‖ q`
   verifies like `q` (open known finding `taproot.check_output_pubkey.zero_padded_key_accepted`).  "Commits to
   exactly its key" therefore means: among keys of one length at most one verifies (`output_key_unique`), and keys
@@ -398,7 +398,7 @@ theorem every_leaf_version_sound_secp256k1 (xb : Bytes) (hxb : xb.length = 32)
   every_leaf_version_sound liftEven_secp256k1 len32_taggedHash xb hxb v s hs q par hq s' c' hs' hc
 
 /-- T1n on secp256k1: the NUMS fallback key `02 ‖ NUMS_X` IS a point (kernel-evaluated `lift_x`), so the hypothesis
-    `hP` of `completeness_secp256k1_raw` is met by `sec := numsSec`, i.e. by `internal_pubkey = None` / `b""`. -/
+    `hP` of `completeness_secp256k1_cofactor_one` is met by `sec := numsSec`, i.e. by `internal_pubkey = None` / `b""`. -/
 theorem nums_is_a_point_secp256k1 :
     ∃ Q, pointFromOctets (EC.ops secp256k1) numsSec = .ok Q ∧ (EC.ops secp256k1).isZero Q = false :=
   nums_parses
@@ -409,7 +409,7 @@ theorem executed_instance_facts : LiftEven (EC.ops secp256k1) ∧ Len32 taggedHa
 
 /-- T1 over the RAW arithmetic (the key parses over `Btc.EC.ops C` itself; no `opsSub` in the statement), under the
     explicit cofactor-one hypothesis `hcof` and `hΔ` (restricted and unrestricted `lift_x` then agree) -/
-theorem completeness_ec_raw {p : ℕ} [Fact p.Prime] {C : Curve} (K : CurveOk p C) (h34 : p % 4 = 3)
+theorem completeness_ec_cofactor_one {p : ℕ} [Fact p.Prime] {C : Curve} (K : CurveOk p C) (h34 : p % 4 = 3)
     (hcof : ∀ g : Pt p C.toCurveGroup, C.n • g = 0) (hΔ : (curveOf p C.toCurveGroup).toAffine.Δ ≠ 0)
     (hp : C.p ≤ 2 ^ 256) {H : TagHash} (h32 : Len32 H)
     (sec : Bytes) (tree : Tree) (Q : Point) (t : ℤ) (hdepth : tree.depth ≤ 128)
@@ -420,10 +420,10 @@ theorem completeness_ec_raw {p : ℕ} [Fact p.Prime] {C : Curve} (K : CurveOk p 
     ∀ i : ℕ, i < (leaves H tree).length →
       ∃ s c, inputScriptSig (EC.ops C) H (some sec) tree i = .ok (s, c) ∧
         checkOutputPubkey (EC.ops C) H (outKey (EC.ops C) (tweakPoint (EC.ops C) Q t)).1 s c = .ok true :=
-  completeness_raw_cof K h34 hcof hΔ hp h32 sec tree Q t hdepth hP ht hQ
+  completeness_raw_cofactor_one K h34 hcof hΔ hp h32 sec tree Q t hdepth hP ht hQ
 
 /-- T2 over the RAW arithmetic, under `hcof`, `hΔ`: both tweaks over `Btc.EC.ops C` -/
-theorem key_agreement_ec_raw {p : ℕ} [Fact p.Prime] {C : Curve} (K : CurveOk p C) (h34 : p % 4 = 3)
+theorem key_agreement_ec_cofactor_one {p : ℕ} [Fact p.Prime] {C : Curve} (K : CurveOk p C) (h34 : p % 4 = 3)
     (hcof : ∀ g : Pt p C.toCurveGroup, C.n • g = 0) (hΔ : (curveOf p C.toCurveGroup).toAffine.Δ ≠ 0)
     {H : TagHash} (d : ℤ) (h0 : 0 < d) (h1 : d < C.n) (sec h : Bytes) (Q : Point)
     (hP : pointFromOctets (EC.ops C) sec = .ok Q)
@@ -437,10 +437,10 @@ theorem key_agreement_ec_raw {p : ℕ} [Fact p.Prime] {C : Curve} (K : CurveOk p
         (EC.ops C).eq ((EC.ops C).mul d2 C.G) (tweakPoint (EC.ops C) Q t) = true ∧
         ((EC.ops C).isZero (tweakPoint (EC.ops C) Q t) = false →
           outKey (EC.ops C) ((EC.ops C).mul d2 C.G) = outKey (EC.ops C) (tweakPoint (EC.ops C) Q t))) :=
-  key_agreement_raw_cof K h34 hcof hΔ d h0 h1 sec h Q hP hsame hx
+  key_agreement_raw_cofactor_one K h34 hcof hΔ d h0 h1 sec h Q hP hsame hx
 
-/-- T1 on secp256k1 with SHA-256, RAW: the only assumption left is `Secp256k1CofactorOne` (`#E(F_p) = n`) -/
-theorem completeness_secp256k1_raw (hcof : Secp256k1CofactorOne)
+/-- T1 on secp256k1 with SHA-256, RAW: the only assumption left is `SecpCofactorOne` (`#E(F_p) = n`) -/
+theorem completeness_secp256k1_cofactor_one (hcof : SecpCofactorOne)
     (sec : Bytes) (tree : Tree) (Q : Point) (t : ℤ) (hdepth : tree.depth ≤ 128)
     (hP : pointFromOctets (EC.ops secp256k1) sec = .ok Q)
     (ht : tapTweak (EC.ops secp256k1) taggedHash (xOnly sec) (root taggedHash tree) = .ok t)
@@ -451,10 +451,10 @@ theorem completeness_secp256k1_raw (hcof : Secp256k1CofactorOne)
       ∃ s c, inputScriptSig (EC.ops secp256k1) taggedHash (some sec) tree i = .ok (s, c) ∧
         checkOutputPubkey (EC.ops secp256k1) taggedHash
           (outKey (EC.ops secp256k1) (tweakPoint (EC.ops secp256k1) Q t)).1 s c = .ok true :=
-  Btc.E2E.completeness_secp256k1_raw hcof len32_taggedHash sec tree Q t hdepth hP ht hQ
+  Btc.E2E.completeness_secp256k1_cofactor_one hcof len32_taggedHash sec tree Q t hdepth hP ht hQ
 
-/-- T2 on secp256k1, RAW, under `Secp256k1CofactorOne` -/
-theorem key_agreement_secp256k1_raw (hcof : Secp256k1CofactorOne) {H : TagHash}
+/-- T2 on secp256k1, RAW, under `SecpCofactorOne` -/
+theorem key_agreement_secp256k1_cofactor_one (hcof : SecpCofactorOne) {H : TagHash}
     (d : ℤ) (h0 : 0 < d) (h1 : d < secp256k1.n) (sec h : Bytes) (Q : Point)
     (hP : pointFromOctets (EC.ops secp256k1) sec = .ok Q)
     (hsame : (EC.ops secp256k1).eq Q ((EC.ops secp256k1).mul d secp256k1.G) = true ∨
@@ -469,7 +469,7 @@ theorem key_agreement_secp256k1_raw (hcof : Secp256k1CofactorOne) {H : TagHash}
         ((EC.ops secp256k1).isZero (tweakPoint (EC.ops secp256k1) Q t) = false →
           outKey (EC.ops secp256k1) ((EC.ops secp256k1).mul d2 secp256k1.G) =
             outKey (EC.ops secp256k1) (tweakPoint (EC.ops secp256k1) Q t))) :=
-  Btc.E2E.key_agreement_secp256k1_raw hcof d h0 h1 sec h Q hP hsame hx
+  Btc.E2E.key_agreement_secp256k1_cofactor_one hcof d h0 h1 sec h Q hP hsame hx
 
 -- non-vacuity of T3 on the executed arithmetic: the toy curve `y² = x³ + 7` over `F₄₃`, internal key x = 21, the
 -- three-leaf tree, the control block `input_script_sig` builds for leaf 2: every hypothesis of `soundness_ec` holds
